@@ -33,6 +33,7 @@ type R struct {
 	traceOn   bool
 	hash      uint64 // running hash of the canonical event log (decisions + observations)
 	nEvents   int
+	nDecisions int
 	Faults    map[string]int // fault kind -> times fired in this run
 	Probes    map[string]int // "rare condition reached" probes
 	Steps     int            // scheduler steps / simulated operations
@@ -130,3 +131,21 @@ func Hex(b []byte) string {
 
 // Indent helper for multi-line details.
 func Indent(s string) string { return "  " + strings.ReplaceAll(s, "\n", "\n  ") }
+
+// Decision records a scheduling decision in the canonical log (hashed; traced up to a bound).
+func (r *R) Decision(actor, what string) {
+	h := r.hash
+	for i := 0; i < len(actor); i++ {
+		h = (h ^ uint64(actor[i])) * 1099511628211
+	}
+	h = (h ^ 0x1f) * 1099511628211
+	for i := 0; i < len(what); i++ {
+		h = (h ^ uint64(what[i])) * 1099511628211
+	}
+	r.hash = h
+	r.Steps++
+	if r.traceOn && r.nDecisions < 400 {
+		r.trace = append(r.trace, "  > "+actor+": "+what)
+	}
+	r.nDecisions++
+}
